@@ -35,6 +35,9 @@ CHECKS = {
  "C04": dict(text="Three TLC-enumerated program domains: TsGrammar.tla (a state machine on source text whose actions are the productions of the whole TypeScript type syntax, supported or not, over a prelude of declarations incl. generic, recursive and cyclic aliases, enums, consts, interfaces, classes), MC_Mutate.tla (every (program, operator, position) mutation of the repository's 319 test programs: delete / duplicate declarations, rename references, swap / drop type arguments, alias chains, cyclic aliases, wrapping in utilities, truncation), and the unmutated corpus. Every project is compiled in a child process under a watchdog with a panic hook; Trace_Compile.tla requires the outcome to be code (which must load against the client runtime and build every requested parser) or at least one diagnostic whose file belongs to the project and whose line/column range lies inside that file; a panic, an abort (stack overflow) or a timeout is never accepted.",
              ref="4/C04", note="Trusted: TLC; 'promptly' = 10 s watchdog; stack overflow observed as death of the child process; multi-file layouts with missing / cyclic imports are exercised by C09's generator.",
              tech="TLC-enumerated grammar productions and mutation schedules compiled by the real compiler; outcomes judged by TLC"),
+ "C10": dict(text="Determinism.tla generates projects with many symbols per table (every vector of export kinds, typeable or not, reached through a namespace import, named imports, an export-star hop or per-export namespace access) and states the property as a history variable: the first output observed for a project must equal every later one. All generated projects and the 319 corpus programs are compiled in several fresh OS processes (fresh hash seeds) and under several file-registration orders; Trace_Determinism.tla judges the digests of the emitted code / serialized diagnostics.",
+             ref="4/C10", note="Trusted: TLC; OS process creation as the source of fresh hash seeds; detection of an order-dependent site is probabilistic in the number of processes (6 quick / 12 thorough).",
+             tech="TLC-enumerated projects x real process spawns x registration orders; equality judged by TLC with a history variable"),
 }
 NA = []
 def main():
